@@ -1,7 +1,7 @@
 SPECIFICATION Spec
 CONSTANTS
     Names = {"a", "aa", "A"}
-    Gens = {"Unary", "UnaryVoid", "Producer", "ProducerWithHeader", "Exchange", "ExchangeWithHeader", "DynamicStreamWithHeader"}
+    Gens = {"Unary", "UnaryVoid", "ProducerWithHeader", "DynamicStreamWithHeader"}
     Params = {"P1"}
     Results = {"Rint"}
     Outs = {"O1", "NIL"}
